@@ -1,8 +1,9 @@
 #!/bin/sh
-# offline setup: build the native replay binary once (checks rebuild it incrementally against /repo's working tree)
+# offline setup: build the native replay binaries once (checks rebuild them incrementally against /repo's working tree)
 set -e
 cd /verif
 export CARGO_NET_OFFLINE=true
 mkdir -p .cache
 CARGO_TARGET_DIR=/verif/.cache/replay-target cargo build --offline --quiet --manifest-path replay/Cargo.toml
+CARGO_TARGET_DIR=/verif/.cache/replay-target-more-parens cargo build --offline --quiet --manifest-path replay/Cargo.toml --features more-parens
 python3-vt -c "import z3; print('z3', z3.get_version_string())"
